@@ -91,7 +91,7 @@ class Run:
         self._drv = None
         self._tlc_n = 0
         self.known = load_known()
-        self.pmap = json.load(open(os.path.join(ROOT, "spec", "PROPERTY_MAP.json")))
+        self.pmap = load_pmap()
 
     # ------------------------------------------------------------------ TLC
     def tlc(self, module, cfg, workers=None, simulate=None, depth=None, env=None, timeout=600,
@@ -207,6 +207,14 @@ class Run:
         if self._drv:
             return self._drv
         h = os.path.join(ROOT, "harness")
+        if os.path.realpath(REPO) != "/repo":
+            # mutation testing against a scratch worktree: build a private copy of the harness whose
+            # replace directive points at that tree (registered checks always use /repo itself)
+            h2 = os.path.join(self.work, "harness")
+            shutil.copytree(h, h2)
+            gm = open(os.path.join(h2, "go.mod")).read().replace("=> /repo", "=> " + os.path.realpath(REPO))
+            open(os.path.join(h2, "go.mod"), "w").write(gm)
+            h = h2
         shutil.copy(os.path.join(REPO, "go.sum"), os.path.join(h, "go.sum"))
         out = os.path.join(self.work, "drv")
         t = time.time()
@@ -387,6 +395,14 @@ class Run:
         tmp = p + ".tmp%d" % os.getpid()
         json.dump(ev, open(tmp, "w"), indent=1)
         os.replace(tmp, p)
+
+
+def load_pmap():
+    """guard/invariant name -> property id; one JSON file per module under spec/pmap/."""
+    out = {}
+    for p in sorted(glob.glob(os.path.join(ROOT, "spec", "pmap", "*.json"))):
+        out.update(json.load(open(p)))
+    return out
 
 
 # ---------------------------------------------------------------------- known findings
